@@ -289,6 +289,14 @@ def rule_sqlcodec(program, ctx):
     if sel is None:
         raise AnalysisError("SELECT skeleton not found in build_query")
     eft = program.func("nostr_relay.storage.db:event_from_tuple")
+    # the tags value: the column itself or its JSON decoding - never re-shaped element by element
+    for st_ in walk_no_nested(eft):
+        if isinstance(st_, ast.Assign) and any(dotted(t) == "tags" for t in st_.targets):
+            v_ = st_.value
+            okt = (isinstance(v_, ast.Subscript) and isinstance(v_.slice, ast.Constant)) or (isinstance(v_, ast.Call) and call_name(v_).split(".")[-1] in ("json_loads", "loads") and len(v_.args) == 1 and dotted(v_.args[0]) == "tags")
+            if not okt:
+                ctx.bad(finding_at(P, rid, st_, f"event_from_tuple re-shapes the stored tags (`{norm(st_, 60)}`): a tag that is not an array (a JSON string is accepted as a tag) is split / "
+                                   "converted, the served event differs from the accepted one and its id no longer verifies"))
     idx = {}
     hexed = set()
     call = next((c for c in ast.walk(eft) if isinstance(c, ast.Call) and call_name(c) == "Event"), None)
